@@ -20,9 +20,8 @@ META = dict(
          'an outcome is non-trivial when at least one ray reaches the image finite; distinct = rounded image '
          'coordinates of the fan differ',
     exhaustive=True,
-    bounds=dict(quick='all words over 15 symbols, depth<=2 (240 lenses) + every 3-word over the 8 closed-form and '
-                      'aspheric symbols (512) + 24 samples; 4 fields x 2 wavelengths x 25 pupil points',
-                thorough='all words depth<=3 over 15 symbols (3615 lenses) x 4 numeric variants + samples'),
+    bounds=dict(quick='all words over 15 symbols, depth<=3 (3615 lenses) + 24 samples; 4 fields x 2 wavelengths x 25 pupil points',
+                thorough='depth<=3 over 15 symbols + depth 4 over 8 symbols (4096) x 4 numeric variants + samples'),
     tolerances=dict(algebraic='1e-9 relative', newton_on_surface='surface tol (1e-6 mm default)'),
     assumptions=['frame convention global = o + Rx Ry Rz local as documented', 'catalogue indices trusted (C18)',
                  'object space is air'],
@@ -59,9 +58,9 @@ def units(tier, variant):
     A = alphabet(variant)
     out = []
     if tier == 'quick':
-        ws = list(LZ.words(A, 1, 2)) + [w for w in LZ.words(A[:8], 3, 3)]
-    else:
         ws = list(LZ.words(A, 1, 3))
+    else:
+        ws = list(LZ.words(A, 1, 3)) + list(LZ.words(A[:8], 4, 4))
     for w in ws:
         out.append(dict(kind='word', word=list(w), variant=variant))
     if variant == 0 or tier == 'quick':
